@@ -297,7 +297,11 @@ def T9(m, R):
         R.check(not problems, f, st, "'%s': groups FILL, SIGN, WIDTH used as fill, extend flag and width" % ch, '; '.join(problems), construct=cons)
     for ch in '<>^':
         if ch not in seen:
-            R.viol(f, f.node, "no regex recognises the alignment character '%s'" % ch, construct='alignment regex ' + ch)
+            if not seen:
+                # no alignment pattern was found as a literal at all (they may sit in a table): the shape is not recognised, nothing is known
+                R.undecided(f, f.node, "the regular expressions of the alignment characters were not found as pattern literals", construct='alignment regex ' + ch)
+            else:
+                R.viol(f, f.node, "no regex recognises the alignment character '%s'" % ch, construct='alignment regex ' + ch)
     # ---- spec-splitting regex in to_str
     f = m.fn('AnsiString.to_str')
     pats = _pattern_assigns(f)
